@@ -20,6 +20,21 @@ CHECKS = {
    note="Traces are valid by construction and re-checked by the reference validity predicate; inadmissible points are filtered by the stated predicate and counted; the prover's debug-only validation is not run (release-like profile with overflow checks).",
    technique="bounded-exhaustive (deviation-bounded) enumeration of configurations on the real prover and verifier",
    engine="stark", design_ref="§4 C01"),
+ "C02": dict(category="exploration",
+   text="Reduced SpecAir family x (field, hasher) pairs: EVERY (column, step) cell of the main and of the auxiliary segment corrupted by +1, -1 and a seeded value, proved by the real prover without debug validation; a reference validity predicate decides whether the corrupted trace is still valid (must prove and verify) or invalid (a returned proof must be rejected). Then every perturbation of the statement of the accepted honest proof: each asserted value +-1, a different statement encoding, a different transition rule, every byte of the proof context changed 5 ways.",
+   note="Rejection of invalid traces is probabilistic (error <= 2^-50 here); the reference predicate is the definition (every non-exempt transition, every asserted cell) in reference arithmetic.",
+   technique="exhaustive enumeration of corrupted cells / perturbed statements against a reference validity predicate",
+   engine="stark", design_ref="§4 C02"),
+ "C03": dict(category="exploration",
+   text="Seed proofs per (field, hasher) pair: ALL single-bit flips of the serialized proof, every structural field set to boundary values, every length-prefixed component resized with and without fixing its length, every element/digest replaced, items/components exchanged, GKR option added/removed, trailing bytes; adaptive substitution of the FRI remainder by R + c*Z_Q after learning the query positions with a recording coin. A mutant that parses to different content must not be accepted; the stated exceptions (digest re-encodings, position-equivalent nonce, partition-count edits with identical leaf mapping) are decided by computation.",
+   note="Hash collision-freeness; mutants that panic are counted as not accepted here and reported by C06.",
+   technique="exhaustive enumeration of proof mutations (incl. position-adaptive ones) with semantic decoding as the filter",
+   engine="stark", design_ref="§4 C03"),
+ "C06": dict(category="fault_enumeration",
+   text="Near-valid mutation closure of seed proofs (all bit flips, byte values, truncation at every offset incl. the empty input, trailing garbage, every structural field at boundary values, component resizes, element replacement, exchanges, all pairs of count fields at {0,max}, GKR option with lengths up to 2^64-1): each mutant is parsed, re-serialized and verified against matching / differently shaped / minimal public inputs under three acceptance policies, with debug assertions and overflow checks on. Panics are caught with their location; a fatal signal of the process is reported as a violation by the driver.",
+   note="The harness AIR reconciles its description with any trace shape the proof claims, so panics are attributable to library code. One known finding (AirContext assertion reached through Air::new).",
+   technique="exhaustive fault/mutation enumeration of untrusted inputs with panic capture",
+   engine="stark", design_ref="§4 C06"),
  "C05": dict(category="exploration",
    text="Adversary enumeration on the stand-alone FRI verifier: configurations x functions (every monomial above the bound, low-degree polynomial corrupted at every point / pairs / half the domain, random) x prover strategies (honest, full remainder, remainder chosen after seeing the queries, tampered opened or committed value per layer, wrong challenge per layer, omitted/duplicated/swapped layers) x ALL position lists of size 1 and 2: the real verifier must return Ok exactly when a reference verifier written from the protocol description accepts. The harness prover model is bound to the code by byte-equality of its honest proof with the real FriProver's.",
    note="Decides the verifier's deterministic accept/reject procedure, not a soundness probability; trusts coin/hashers/Merkle (C19, C11, C10). The model follows the implementation's convention of keeping the domain offset constant across layers (an equivalent rescaling, degrees unchanged).",
@@ -115,7 +130,7 @@ def main():
             {"name": "fields", "path": "harness/bins/fields", "serves_properties": ["C07", "C08"], "kind_free_text": "alphabet products + representation reachability"},
             {"name": "polyfft", "path": "harness/bins/polyfft", "serves_properties": ["C09", "C20"], "kind_free_text": "monomial-basis FFT checks, segmented LDE, polynomial utilities"},
             {"name": "airdom", "path": "harness/bins/airdom", "serves_properties": ["C16", "C18"], "kind_free_text": "divisor/assertion domains; security-estimate parameter space"},
-            {"name": "stark", "path": "harness/bins/stark", "serves_properties": ["C01"], "kind_free_text": "SpecAir family, deviation-bounded configuration enumeration on the real prover/verifier"},
+            {"name": "stark", "path": "harness/bins/stark", "serves_properties": ["C01", "C02", "C03", "C06"], "kind_free_text": "SpecAir family, deviation-bounded configuration enumeration, cell corruption, proof mutation closure on the real prover/verifier"},
             {"name": "frichk", "path": "harness/bins/frichk", "serves_properties": ["C05", "C15"], "kind_free_text": "FRI prover model + reference verifier; folding identity"},
             {"name": "merkle", "path": "harness/bins/merkle", "serves_properties": ["C10"], "kind_free_text": "all subsets x all mutations of Merkle openings"},
             {"name": "hashes", "path": "harness/bins/hashes", "serves_properties": ["C11", "C19"], "kind_free_text": "reference sponge/coin; BFS over coin histories"},
